@@ -1,18 +1,21 @@
 import IprModel.Scope
 import IprDriver.Util
 /-! Driver for the scope model: same op lines as `harness/c07probe.cxx`, same observation lines.
-    Names and types are the tokens of the probe's universe (`N0..N7`, `P0..P7`, `F0..F3`, `A0..A3`); the address of a
+    Names and types are the tokens of the probe's universe (`N0..N<n-1>` -- `lexicon <k> [<n>]`, 8 by default --, `P0..P7`,
+    `F0..F3`, `A0..A3`); the address of a
     token is a parameter (`addr TOKEN a` lines, produced by vlib/c07.py from the probe's `#addr` lines) and defaults
     to an arbitrary injective assignment.  Addresses are never printed. -/
 namespace Ipr.Driver.C07
 open Ipr.RB Ipr.Scope
 
-def nameTokens : List String := (List.range 8).map (fun i => s!"N{i}")
+def nameTokensOf (n : Nat) : List String := (List.range n).map (fun i => s!"N{i}")
 def typeTokens : List String :=
   (List.range 8).map (fun i => s!"P{i}") ++ (List.range 4).map (fun i => s!"F{i}") ++ (List.range 4).map (fun i => s!"A{i}")
 
 structure St where
   addrs : List (String × Int) := []
+  nn : Nat := 8
+  nameTokens : List String := nameTokensOf 8
   gen : State := {}
   hkind : String := ""
   hs : List HScope := []
@@ -30,7 +33,7 @@ def St.addr (st : St) (tok : String) : Option Int :=
   if tok == "ENUM" then some (-1)
   else match st.addrs.lookup tok with
     | some a => some a
-    | none => if nameTokens.contains tok || typeTokens.contains tok then defaultAddr tok else none
+    | none => if st.nameTokens.contains tok || typeTokens.contains tok then defaultAddr tok else none
 
 /-- The name of a base subobject is the name of its type: an address disjoint from those of the `N` tokens. -/
 def nmAddr (typeAddr : Int) : Int := -typeAddr - 2
@@ -45,7 +48,7 @@ def St.typeTok (st : St) (a : Int) (enum : Bool := false) : String :=
     | none => "?"
 
 def St.nameTok (st : St) (a : Int) : String :=
-  match nameTokens.find? (fun t => st.addr t == some a) with
+  match st.nameTokens.find? (fun t => st.addr t == some a) with
   | some t => t
   | none =>
     match typeTokens.find? (fun t => (st.addr t).map nmAddr == some a) with
@@ -77,7 +80,7 @@ def setStr (p : String) (l : List Nat) : String := join "+" (l.map (dTok p))
 
 def lookupsStr (st : St) (withSets : Bool) : String :=
   let s := st.gen
-  join "," (nameTokens.map fun ntk =>
+  join "," (st.nameTokens.map fun ntk =>
     match (st.addr ntk).bind s.lookup with
     | none => ntk ++ "!"
     | some oid =>
@@ -101,7 +104,7 @@ def dumpTree (show_ : KV → String) : Tree KV → String
 def shapeStr (st : St) : String :=
   let s := st.gen
   let o := "O=" ++ dumpTree (fun kv => st.nameTok kv.1) s.overloads.tree
-  o ++ String.join (nameTokens.map fun ntk =>
+  o ++ String.join (st.nameTokens.map fun ntk =>
     match (st.addr ntk).bind s.lookup with
     | none => ""
     | some oid =>
@@ -129,7 +132,7 @@ def hscopeStr (st : St) (h : HScope) (off : Nat) : String :=
   let base := st.hkind == "base"
   let e := h.elements.map (fun i => dTok "h" (i + off))
   let t := h.typeElems.map (fun a => st.typeTok a enum)
-  let names := if base then typeTokens.map (fun t => s!"nm({t})") else nameTokens
+  let names := if base then typeTokens.map (fun t => s!"nm({t})") else st.nameTokens
   let types := if enum then typeTokens ++ ["ENUM"] else typeTokens
   let l := names.map fun ntk =>
     match (st.nameAddr ntk).bind h.lookup with
@@ -161,6 +164,10 @@ def step (st : St) : List String → St × List String
     match a.toInt? with
     | some v => ({ st with addrs := (tok, v) :: st.addrs }, [])
     | none => (st, [])
+  | ["lexicon", _, n] =>
+    match n.toNat? with
+    | some nn => if nn < 8 || nn > 64 then (st, ["bad-op"]) else ({ addrs := [], nn := nn, nameTokens := nameTokensOf nn }, ["ok"])
+    | none => (st, ["bad-op"])
   | "lexicon" :: _ => ({ addrs := [] }, ["ok"])
   | ["new"] => ({ st with gen := {}, hkind := "", hs := [] }, ["ok"])
   | ["decl", kind, ntk, ttk] =>
@@ -170,7 +177,7 @@ def step (st : St) : List String → St × List String
         | .fundecl => ttk.startsWith "F"
         | .primary | .secondary => ttk.startsWith "A"
         | _ => true
-      if !okSort || !(nameTokens.contains ntk) || !(typeTokens.contains ttk) then (st, ["bad-op"])
+      if !okSort || !(st.nameTokens.contains ntk) || !(typeTokens.contains ttk) then (st, ["bad-op"])
       else
         let r : Req := { kind := k, name := n, type := t }
         let cls := classify st.gen r
@@ -183,7 +190,7 @@ def step (st : St) : List String → St × List String
   | ["probe", ntk, ttk] =>
     match st.addr ntk, st.addr ttk with
     | some n, some t =>
-      if !(nameTokens.contains ntk) || !(typeTokens.contains ttk) then (st, ["bad-op"]) else
+      if !(st.nameTokens.contains ntk) || !(typeTokens.contains ttk) then (st, ["bad-op"]) else
       match st.gen.lookup n with
       | none => (st, [ntk ++ "!"])
       | some oid => (st, [s!"{ntk}/{ttk}>" ++ (match st.gen.select oid t with | some d => dTok "d" d | none => "-")])
@@ -200,7 +207,7 @@ def step (st : St) : List String → St × List String
   | ["hadd", ntk, ttk] =>
     match st.addr ntk, st.addr ttk with
     | some n, some t =>
-      if st.hkind == "" || !(nameTokens.contains ntk) || !(typeTokens.contains ttk) then (st, ["bad-op"])
+      if st.hkind == "" || !(st.nameTokens.contains ntk) || !(typeTokens.contains ttk) then (st, ["bad-op"])
       else if st.hkind == "eh" then
         let hs := st.hs ++ [({} : HScope).push n t]
         ({ st with hs := hs }, [s!"h{st.hs.length} size={hs.length}"])
